@@ -3,10 +3,10 @@ from . import django_h, sa_h
 
 DJ = {"City": ("vt_dj_city", ["id", "name"]), "Person": ("vt_dj_person", ["id", "name", "age", "city_id"]), "Blog": ("vt_dj_blog", ["id", "title", "owner_id"]),
       "Tag": ("vt_dj_tag", ["id", "label", "weight"]), "Post": ("vt_dj_post", ["id", "title", "score", "blog_id", "author_id", "owner_id"]),
-      "Comment": ("vt_dj_comment", ["id", "text", "score", "post_id"])}
+      "Comment": ("vt_dj_comment", ["id", "text", "score", "flag", "post_id"])}
 SA = {"City": ("sa_city", ["id", "name"]), "Person": ("sa_person", ["id", "name", "age", "city_id"]), "Blog": ("sa_blog", ["id", "title", "owner_id"]),
       "Tag": ("sa_tag", ["id", "label", "weight"]), "Post": ("sa_post", ["id", "title", "score", "blog_id", "author_id", "owner_id"]),
-      "Comment": ("sa_comment", ["id", "text", "score", "post_id"])}
+      "Comment": ("sa_comment", ["id", "text", "score", "flag", "post_id"])}
 ORDER_DEL = ["Comment", "Post", "Blog", "Tag", "Person", "City"]
 ORDER_INS = ["City", "Person", "Blog", "Tag", "Post", "Comment"]
 
